@@ -362,9 +362,17 @@ static void runCase(const std::vector<std::string>& lines) {
                 P_.push_back(pts); S_.push_back(sf);
             }
             size_t nq = tk.u64(); std::string out = "ok";
+            Point* keptP = nullptr; Channel* keptC = nullptr;      // a reference the caller took earlier and still holds
             for (size_t q = 0; q < nq; ++q) {
                 std::string what = tk.next(); size_t c = tk.u64();
-                if (what == "r") {
+                if (what == "k") {        // keep a reference to element j (the containers do not grow any more: it stays valid)
+                    size_t j = tk.u64();
+                    try { if (cmd == "mk.ptsr") keptP = &P_.at(c).point_nonConst(j); else keptC = &S_.at(c).channel_nonConst(j); out += " k"; }
+                    catch (std::out_of_range&) { out += " o"; }
+                } else if (what == "w") { // rename through the reference kept earlier
+                    std::string n = tk.str();
+                    if (cmd == "mk.ptsr" ? keptP != nullptr : keptC != nullptr) { if (cmd == "mk.ptsr") keptP->name(n); else keptC->name(n); out += " w"; } else out += " -";
+                } else if (what == "r") {
                     size_t j = tk.u64(); std::string n = tk.str();
                     try { if (cmd == "mk.ptsr") P_.at(c).point_nonConst(j).name(n); else S_.at(c).channel_nonConst(j).name(n); out += " r"; }
                     catch (std::out_of_range&) { out += " o"; }
